@@ -11,17 +11,20 @@
    entity's table entry (a despawn reactor fires at most once per watched entity) and empties the channel.
    RSeq (sequence numbers below the counter) is a closed invariant of every interpreter step, hence holds in every
    reachable state.
-   Proved for whole executions (PrepSpec, TopLevel): every reaction a poll schedules is parked (Command::apply draws a
-   fresh ticket and parks the reaction's data) in the order in which the poll produced it, each before anything it
-   causes; tickets increase strictly in parking order in every reachable state; and over a whole run every parked
-   command is set up exactly once — by the run it causes or by the abort path when its target has vanished — none is
-   lost and none is set up twice.  So "scheduled by a poll" leads to exactly one setup (run or abort) per reactor.
-   NOT proved: that a poll happens no later than the end of the enclosing tree / frame (structural in Machine.exec:
-   IPoll before and after every system command and in TFrame).  That rests on the correspondence (poll profile:
-   inserts, removals, re-inserts and despawns between polls, direct and in frames). *)
+   Proved for whole executions (PrepSpec, TopLevel, QuietSpec): every reaction a poll schedules is parked
+   (Command::apply draws a fresh ticket and parks the reaction's data) in the order in which the poll produced it, each
+   before anything it causes; tickets increase strictly in parking order in every reachable state; over a whole run
+   every parked command is set up exactly once — by the run it causes or by the abort path when its target has vanished
+   — none is lost and none is set up twice; and polls come in time: whenever the system-command runner returns (after a
+   run, an abort or a postponement), whenever a poll with everything it schedules returns, and at the end of every
+   frame, the despawn channel is empty and no removal checker has an unread record (Quiet).
+   PARTIAL in this sense only: the links (recorded once -> read once -> exactly the registered reactors scheduled ->
+   parked in order -> set up exactly once; polled by the end of the tree / frame) are separate theorems; their
+   composition into one log-level statement ("one run line per removal record and registered reactor") is not a single
+   theorem and is what the correspondence (poll profile) compares. *)
 From Cobweb Require Import Machine.
 From Coq Require Import Sorting.Sorted Sorting.Permutation.
-From CobwebProofs Require Import TablesSpec PollSpec TicketInv PrepSpec TopLevel.
+From CobwebProofs Require Import TablesSpec PollSpec TicketInv PrepSpec QuietSpec TopLevel.
 
 Theorem removal_is_recorded_once_partial : forall c e w,
   removed (push_removed c e w) = removed w ++ [(c, (e, removed_seq w, generation w))] /\ removed_seq (push_removed c e w) = N.succ (removed_seq w).
@@ -77,6 +80,13 @@ Theorem every_parked_reaction_is_set_up_exactly_once : forall (P : program) fuel
   Permutation (ptickets (g_prep w')) (ctickets (g_claim w')) /\ NoDup (ctickets (g_claim w')).
 Proof. exact every_parked_command_is_set_up_exactly_once. Qed.
 
+Theorem a_tree_ends_with_nothing_unread : forall (P : program) f t su cl w w', RSeq w -> exec P f (IRunner t su cl) w = Ok w' -> Quiet w'.
+Proof. exact tree_ends_polled. Qed.
+Theorem a_poll_and_what_it_schedules_leave_nothing_unread : forall (P : program) f w w', RSeq w -> exec P f IPoll w = Ok w' -> Quiet w'.
+Proof. exact poll_leaves_nothing_unread. Qed.
+Theorem a_frame_ends_with_nothing_unread : forall (P : program) f i bs w w', RSeq w -> exec P f (ITop i (TFrame bs)) w = Ok w' -> Quiet w'.
+Proof. exact frame_ends_polled. Qed.
+
 (* non-vacuity: component 0 of entity 1 is removed, re-inserted and removed again between two polls, entity 2 (watched)
    is despawned: the removal reactor runs twice for entity 1, the despawn reactor once for entity 2 *)
 Definition ex_prog : program :=
@@ -96,6 +106,11 @@ Example ex_sorted : psorted (install_static ex_prog init_world).
 Proof. exact (psorted_init ex_prog). Qed.
 Example ex_parked : exists w', run ex_prog 400 = Ok w' /\ ptickets (g_prep w') = [1; 2; 3] /\ ctickets (g_claim w') = [1; 2; 3].
 Proof. eexists. split; [vm_compute; reflexivity|]. vm_compute. split; reflexivity. Qed.
+Example ex_quiet : exists w', run ex_prog 400 = Ok w' /\ Quiet w' /\ length (removed w') = 2%nat /\ removal_checkers w' <> [].
+Proof.
+  eexists. split; [vm_compute; reflexivity|]. split; [|split; [vm_compute; reflexivity|vm_compute; discriminate]].
+  split; [vm_compute; reflexivity|]. intros c cur Hin. vm_compute in Hin. destruct Hin as [H|[]]. inversion H; subst. vm_compute. reflexivity.
+Qed.
 
 Print Assumptions removal_is_recorded_once_partial.
 Print Assumptions nothing_recorded_for_a_component_not_removed_partial.
@@ -114,3 +129,6 @@ Print Assumptions poll_empties_the_despawn_channel_partial.
 Print Assumptions reactions_of_one_poll_are_parked_in_order.
 Print Assumptions tickets_increase_in_parking_order.
 Print Assumptions every_parked_reaction_is_set_up_exactly_once.
+Print Assumptions a_tree_ends_with_nothing_unread.
+Print Assumptions a_poll_and_what_it_schedules_leave_nothing_unread.
+Print Assumptions a_frame_ends_with_nothing_unread.
